@@ -26,10 +26,15 @@ def op_configs(tier):
     add("fixed-size C", op="fixed", fam="C", R=6, pmax=4)
     add("fixed-size A", op="fixed", fam="A", R=5, pmax=3)
     add("optimal-size C", op="optimal", fam="C", R=6)
+    add("optimal-size F (repeated sizes)", op="optimal", fam="F", R=7)
+    add("fixed-size F (repeated sizes)", op="fixed", fam="F", R=7, pmax=3)
+    add("merge-min F", op="mergemin", fam="F", R=7, pmax=4)
+    add("top-bottom F", op="topbottom", fam="F", R=7)
     add("optimal-size A", op="optimal", fam="A", R=5 if q else 7)
     add("n-plates-per-sample A", op="nper", fam="A", R=5 if q else 7)
     add("n-plates-per-sample B", op="nper", fam="B", R=5 if q else 7)
     add("ensemble C", op="ensemble", fam="C", R=4 if q else 6)
+    add("ensemble F (truncation draws)", op="ensemble", fam="F", R=7)
     add("sparse-cover A", op="cover", fam="A", R=4 if q else 5)
     add("sparse-cover B", op="cover", fam="B", R=4)
     add("balanced hold-out A", op="holdout", fam="A", R=5)
